@@ -92,6 +92,14 @@ def cp_apr(  # noqa: PLR0913
 
     assert rank > 0, "Number of components requested must be positive"
 
+    if isinstance(input_tensor, ttb.sptensor) and np.any(input_tensor.vals == 0):
+        # Explicitly stored zeros are zero counts like the implicit ones (left in
+        # the coordinate list they enter the log-likelihood as 0 * log(0) = NaN)
+        nonzero = input_tensor.vals[:, 0] != 0
+        input_tensor = ttb.sptensor(
+            input_tensor.subs[nonzero], input_tensor.vals[nonzero], input_tensor.shape
+        )
+
     if isinstance(input_tensor, ttb.sptensor) and input_tensor.nnz == 0:
         # No counts at all: the coordinate list has no mode columns to index, the
         # dense all-zero tensor is the same data
